@@ -2,21 +2,18 @@
   VecIdx — what property C14 (vector index membership = active embedded frames) adds on top of the
   shared Core model.
 
-  1. Crash recovery with and without the repair of `/verif/fixes/C14.diff`
-       Mem.recoverWalCfg fix    mutation.rs recover_wal; `fix = true`: the added statement
+  1. Crash recovery BEFORE the repair 5c6fd4b (fixes/C14.diff), kept for the counterexample theorem
+       Mem.recoverWalPre        mutation.rs recover_wal without the statement
                                 `if !delta.inserted_embeddings.is_empty() && !self.vec_enabled { self.vec_enabled = true; }`
-                                right after `apply_records`.  `apply_records` neither reads nor writes
-                                `vec_enabled`, and `delta.inserted_embeddings` is non-empty exactly when a
-                                replayed Insert record carries an embedding, so the statement is modelled as
-                                `Mem.enableVecForReplay` applied BEFORE the shared `Core.recoverWal` (which
-                                therefore stays the single mirror of the rest of `recover_wal`).
-       Mem.openFromCfg / Mem.crashCfg / stepCfg / runCfg / traceCfg
+                                (`Core.recoverWal` minus `enableVecForEmbs`)
+       Mem.openFromPre / Mem.crashPre / stepPre / runPre / tracePre
                                 `Core.openFrom` / `Core.crash` / `Core.step` / `run` / `trace` with that recovery
-     `fix = false` is the code as found (`Core.crash`): a handle that dies before the first vector
-     manifest reached the file replays the frames of its embedded puts and drops their vectors, because
-     `open_locked` derives `vec_enabled` from the TOC on disk and `build_vec_artifact` returns nothing
-     while vectors are disabled.  The driver uses `stepCfg Gen.C14.RECOVER_ENABLES_VEC` (the translator
-     reads from the source whether the repair is present).
+     A handle that dies before the first vector manifest reached the file replays the frames of its
+     embedded puts and drops their vectors, because `open_locked` derives `vec_enabled` from the TOC on
+     disk and `build_vec_artifact` returns nothing while vectors are disabled.  The shared Core model
+     mirrors the repaired code; the C14 theorems speak about `Core.step` / `run` directly.  The driver
+     uses `Core.crash` when the source has the repair (tools/gen/C14.py: RECOVER_ENABLES_VEC) and
+     `crashPre` otherwise.
 
   2. The representations of `VecIndex` (src/vec.rs) for the two build configurations
        VecRepr                  enum VecIndex { Uncompressed, Hnsw }   (Compressed is never built by a commit)
@@ -35,41 +32,37 @@ import MvModel.Core
 import MvModel.Gen.C14
 namespace Mv.Core
 
-/-! ## 1. crash recovery, as found and repaired -/
+/-! ## 1. crash recovery before the repair -/
 
-def Entry.hasEmb : Entry → Bool
-  | .insert e => e.emb.isSome
-  | _ => false
-
-/-- a pending (not yet checkpointed) Insert record carries an embedding -/
-def pendingHasEmb (recs : List (Nat × Entry)) : Bool := recs.any (fun r => r.2.hasEmb)
-
-/-- the repair of fixes/C14.diff: replayed embeddings switch vectors on -/
-def Mem.enableVecForReplay (fix : Bool) (m1 : Mem) : Mem :=
-  if fix && pendingHasEmb m1.pending && !m1.vecEnabled then { m1 with vecEnabled := true } else m1
-
-/-- `recover_wal`; `fix` = the repair of fixes/C14.diff is present -/
-def Mem.recoverWalCfg (fix : Bool) (m1 : Mem) (ft : Nat) : Mem := (m1.enableVecForReplay fix).recoverWal ft
+/-- `recover_wal` before 5c6fd4b: `Core.recoverWal` without `enableVecForEmbs` -/
+def Mem.recoverWalPre (m1 : Mem) (ft : Nat) : Mem :=
+  if m1.pending.isEmpty then m1.flushTantivy ft
+  else
+    match applyRecords m1 m1.pending true with
+    | none => m1
+    | some (ma, delta) =>
+      ((if delta.nonEmpty then ma.rebuildIndexes delta.embs delta.inserted ft
+        else ma.flushTantivy ft).persistSketch.bumpFooter ft).checkpoint
 
 /-- `open_locked` with that recovery -/
-def Mem.openFromCfg (fix : Bool) (m : Mem) (ft : Nat) : Mem := m.openLoad.loadTracks.recoverWalCfg fix ft
+def Mem.openFromPre (m : Mem) (ft : Nat) : Mem := m.openLoad.loadTracks.recoverWalPre ft
 
 /-- the process dies (no `Drop`); the next open replays the WAL -/
-def Mem.crashCfg (fix : Bool) (m : Mem) (ft : Nat) : Mem × Out :=
-  ({ m with queue := m.pQueue }.openFromCfg fix ft, .ok)
+def Mem.crashPre (m : Mem) (ft : Nat) : Mem × Out :=
+  ({ m with queue := m.pQueue }.openFromPre ft, .ok)
 
-/-- `Core.step` with the crash recovery of the chosen variant -/
-def stepCfg (fix : Bool) (m : Mem) : Op → Mem × Out
-  | .crash ft => m.crashCfg fix ft
+/-- `Core.step` with the crash recovery of the unrepaired code -/
+def stepPre (m : Mem) : Op → Mem × Out
+  | .crash ft => m.crashPre ft
   | op => step m op
 
-def runCfg (fix : Bool) (m : Mem) : List Op → Mem
+def runPre (m : Mem) : List Op → Mem
   | [] => m
-  | op :: ops => runCfg fix (stepCfg fix m op).1 ops
+  | op :: ops => runPre (stepPre m op).1 ops
 
-def traceCfg (fix : Bool) (m : Mem) : List Op → List (Op × Out)
+def tracePre (m : Mem) : List Op → List (Op × Out)
   | [] => []
-  | op :: ops => (op, (stepCfg fix m op).2) :: traceCfg fix (stepCfg fix m op).1 ops
+  | op :: ops => (op, (stepPre m op).2) :: tracePre (stepPre m op).1 ops
 
 /-! ## 2. representations of the vector index -/
 
